@@ -3,7 +3,7 @@
 p=$1; patch=$2; tier=${3:-quick}
 cd /repo || exit 2
 git diff --quiet || { echo "/repo not clean"; exit 2; }
-git apply "$patch" 2>/dev/null || git apply --3way "$patch" 2>/dev/null || { echo "PATCH DOES NOT APPLY"; git checkout -- .; exit 3; }
+git apply "$patch" 2>/dev/null || { echo "PATCH DOES NOT APPLY"; git checkout -- .; exit 3; }
 git reset -q
 cd /verif && ./check $p --tier $tier; rc=$?
 git -C /repo checkout -- . ; git -C /repo clean -fdq -- . 2>/dev/null
